@@ -73,13 +73,45 @@ class Property(Node):
             p.fmt(fills) if hasattr(p, 'fmt') else str(p) for p in self.parsed
         ])
         # IE cannot handle no space after url()
-        style = re.sub("(url\([^\)]*\))([^\s,])", "\\1 \\2", style)
+        style = self._space_after_url(style)
         fills.update({
             'property': self.property,
             'style': style.strip(),
             'important': imp
         })
         return f % fills
+
+    @staticmethod
+    def _space_after_url(style):
+        """ Insert a space between url(...) and a directly following token.
+        String literals are left alone: what looks like url() inside quotes is
+        text, and a quoted argument may itself contain a ')'.
+        """
+        out = []
+        i, n = 0, len(style)
+        while i < n:
+            c = style[i]
+            if c in '"\'':
+                j = style.find(c, i + 1)
+                j = n if j < 0 else j + 1
+                out.append(style[i:j])
+                i = j
+            elif style.startswith('url(', i):
+                j = i + 4
+                while j < n and style[j] != ')':
+                    if style[j] in '"\'':
+                        k = style.find(style[j], j + 1)
+                        j = n if k < 0 else k
+                    j += 1
+                j = min(j + 1, n)
+                out.append(style[i:j])
+                if j < n and not style[j].isspace() and style[j] != ',':
+                    out.append(' ')
+                i = j
+            else:
+                out.append(c)
+                i += 1
+        return ''.join(out)
 
     def copy(self):
         """ Return a full copy of self
